@@ -7,8 +7,8 @@ import (
 	"unicode"
 )
 
-// rejectAmbiguousKeys panics when a map that is about to be decoded into a struct carries two keys that differ only in
-// letter case. The decoder matches keys to fields case-insensitively by ranging over the map, so with such keys the
+// rejectAmbiguousKeys panics when a map that is about to be decoded into a struct carries two keys that name the same
+// field and differ only in letter case. The decoder matches keys to fields case-insensitively by ranging over the map, so with such keys the
 // field would take whichever value the iteration happens to meet first - a different one from call to call.
 // Maps decoded into maps keep their keys as data (criterion ids may differ in case only) and are not restricted.
 func rejectAmbiguousKeys(src interface{}, target reflect.Type) {
@@ -50,19 +50,24 @@ func rejectAmbiguousKeys(src interface{}, target reflect.Type) {
 			mapKeys[name.String()] = k
 		}
 		sort.Strings(keys)
+		// only the keys that name a field are searched for by the decoder, any other key is not read at all
+		fields := make(map[string]reflect.Type, target.NumField())
+		for i := 0; i < target.NumField(); i++ {
+			field := target.Field(i)
+			fields[foldKey(field.Name)] = field.Type
+		}
 		seen := make(map[string]string, len(keys))
 		for _, k := range keys {
 			folded := foldKey(k)
+			fieldType, isField := fields[folded]
+			if !isField {
+				continue
+			}
 			if other, taken := seen[folded]; taken {
 				panic(fmt.Errorf("keys '%s' and '%s' differ only in letter case", other, k))
 			}
 			seen[folded] = k
-		}
-		for i := 0; i < target.NumField(); i++ {
-			field := target.Field(i)
-			if key, ok := seen[foldKey(field.Name)]; ok {
-				rejectAmbiguousKeys(value.MapIndex(mapKeys[key]).Interface(), field.Type)
-			}
+			rejectAmbiguousKeys(value.MapIndex(mapKeys[k]).Interface(), fieldType)
 		}
 	case reflect.Slice, reflect.Array:
 		if value.Kind() != reflect.Slice && value.Kind() != reflect.Array {
